@@ -28,6 +28,8 @@ C = {
          "trusted: TLC; delays compared in whole units (ms or s) rounded to nearest, one unit of slack for the non-integer multiplier; jitter checked as an interval; all attempt numbers are sampled, not exhausted", 'sequential'),
  'C16': ("spec/Reconnect.tla is the reconnect loop of one request (and of several sharing the published state): calls <= max_attempts+1, retry only after a reconnectable error, the policy's delay before each retry (exactly, under the urgent executor; the index base of the policy is chosen once per run by TLC), result rules for MaxAttemptsExceeded/ConnectionFailed/ConnectionFailedNoRetry/ServiceError with the last inner error's payload, published connection state. TLC explores all outcome sequences for 1-2 requests over max_attempts {unlimited,0,1,2} x policies {none,fixed,exponential,custom} x both flags x predicate; generated behaviours and seeded random runs (also jittered policy) execute in the real ReconnectLayer and every trace is validated.",
          "trusted: TLC, tokio paused clock; ReconnectError is classified by its Display text because the type is not re-exported", 'sim'),
+ 'C06': ("spec/TimeLimiter.tla: deadline = first poll + timeout (fixed or per request); the outer call resolves with the inner result at the instant it is available if that is before the deadline, with the timeout error exactly at the deadline otherwise (either at a tie); cancel mode drops the inner call in that same step, detached mode lets it run on and its completion is observed later. TLC explores 2-3 concurrent calls over timeouts {0,2,4, per-request}, latencies below/at/above/never, both modes. Generated behaviours and seeded random runs (also builder-call orders, and runs with a late-polling executor in cancel mode) execute in the real TimeLimiterLayer; every trace is validated.",
+         "trusted: TLC, tokio paused clock and spawn; detached-mode ties are resolved by tokio::select! at random (both allowed); inner panics are outside the property's quantifier and not injected", 'sim'),
 }
 def main():
     props = [json.loads(l) for l in open(os.path.join(ROOT, 'properties.jsonl'))]
